@@ -99,6 +99,8 @@ struct InterpreterEnv : public ScriptExecutionEnvironment {
 
     // Executed sigScript support (archaeology)
     CScript successor_script;
+    // the script the session started with was a scriptSig: its scriptPubKey has been reached as successor script
+    bool scriptsig_ran;
 
     // Taproot/tapscript support
     TaprootCommitmentEnv* tce;
